@@ -32,6 +32,7 @@ MANIFEST = {
             'every order of first presentation; minimality / equivalence / hash coherence also decided on the real code by brute force. ' 
             'Model/ComplexFull.lean + Model/SingletonFull.lean follow ComplexS.identifiers / __init__ / Singleton.__call__ statement by statement (the rotation loop with break / else, the cdict dictionary with last-value semantics, sorted(...)[0], wrap(-turns, tot), registration of rcplxs); identifiers_eq and complexRequestFull_eq prove that this is exactly the net-effect model complexIdentifiers / complexRequest for every registry and every request with a non-empty name (kernel-checked differences for the explicit name "" are kept as findings).',
     'note': 'Python tuple/str comparison is modelled as code-point lexicographic order; trusted base as in DESIGN.md section 3.',
+    'source_derived': "STATEMENT LEVEL, FROM THE SOURCE (since batch 7): translator/pyident.py transcribes ComplexS.identifiers and StrandS.identifiers statement by statement from the working tree (Gen/PyIdentifiers.lean; cls._instanceCanon / PREFIX / ID as parameters); PyIdent.py_ComplexS_identifiers_eq proves the transcription equal to the statement-level model for every registry, request and counter, and py_canon_mem_min, py_canon_rot_invariant, py_canon_eq_iff, py_turns_correct, py_identifiers_total are C02 for the code as written (Python's tuple / str order is written from first principles in Model/PyPreludeIdent and proved equal to the model's: ckeyLt_eq); stream ComplexS.identifiers.source-derived.",
     'technique': 'Lean 4 proofs: strict total key order, orbit invariance from rotate_period, registry invariant; correspondence check on histories',
 }
 
